@@ -151,6 +151,40 @@ def run_check(check, tier, seed, replay_path=None):
         by_sig.setdefault(v['sig'], []).append(v)
     reports = []
     flaky = 0
+    # violations first seen under an *injected* set order: drop when the same signature was also seen
+    # under a real hash seed, otherwise search real PYTHONHASHSEED values for a reproduction
+    unconfirmed_orders = 0
+    for sig in [s_ for s_ in by_sig if s_.endswith('|injected-order')]:
+        base = sig[:-len('|injected-order')]
+        if base in by_sig:
+            del by_sig[sig]
+            continue
+        v = by_sig[sig][0]
+        n = 48 if tier == 'quick' else 3000
+        found = None
+        case = dict(v['case'])
+        case['inject'] = None
+        for start in range(1, n, 48):
+            sj = [('seedsearch%04d' % h, {'mode': 'replay', 'check': check, 'case': case, 'seed': seed, 'watchdog': 60}, h)
+                  for h in range(start, min(start + 48, n + 1))]
+            for pi, res in run_jobs(sj, outdir, 70):
+                if res and res.get('ok') and res.get('violations'):
+                    found = pi['hashseed']
+                    break
+            if found is not None:
+                break
+        del by_sig[sig]
+        if found is None:
+            unconfirmed_orders += 1
+            merged['extra'].setdefault('order_sensitivity_unconfirmed', []).append(
+                {'sig': sig, 'program': v.get('show'), 'symptom': v.get('symptom'), 'seeds_tried': n})
+        else:
+            v = dict(v)
+            v['case'] = case
+            v['hashseed'] = found
+            v['sig'] = base
+            by_sig[base] = [v]
+            merged['viol_counts'][base] = merged['viol_counts'].get(sig, 1)
     to_process = list(by_sig.items())[:24]
     cjobs = []
     for i, (sig, vs) in enumerate(to_process):
